@@ -683,21 +683,23 @@ Definition finalize_edge (T : Z) (ed : edge) : edge :=
      <| elastn := Z.of_nat (length (StoreB.transit (est ed)) + length (StoreB.ready (est ed))) |>.
 
 (* ------------------------------------------------------------------ building the initial world *)
+Definition mk_step (w : world) (c : bool * nat) : world :=
+  let '(is_node, i) := c in
+  if is_node then
+    let kd := match nk (get_node w i) with
+              | NSource => KSourceB | NMachine => KMachineB | NSink => KSinkB
+              | NSplitter => KSplitterB | NCombiner => KCombinerB end in
+    let '(w', _, _) := spawn w (proc0 <| pkd := kd |> <| pown := i |>) in w'
+  else
+    match ek (get_edge w i) with
+    | EFleet =>
+        let '(w1, act) := w_event w in
+        let w2 := upd_edge w1 i (fun x => x <| eact := act |>) in
+        let '(w', _, _) := spawn w2 (proc0 <| pkd := KFleetAct |> <| pown := i |>) in w'
+    | _ => w
+    end.
+
 Definition mk_world (nodes : list node) (edges : list edge) (order : list (bool * nat)) : world :=
-  let w0 := {| wk := kinit; wedges := edges; wnodes := nodes; wprocs := []; witems := []; wlog := [];
-               wcrash := None; wactive := 0 |} in
-  fold_left (fun (w : world) (c : bool * nat) =>
-               let '(is_node, i) := c in
-               if is_node then
-                 let kd := match nk (get_node w i) with
-                           | NSource => KSourceB | NMachine => KMachineB | NSink => KSinkB
-                           | NSplitter => KSplitterB | NCombiner => KCombinerB end in
-                 let '(w', _, _) := spawn w (proc0 <| pkd := kd |> <| pown := i |>) in w'
-               else
-                 match ek (get_edge w i) with
-                 | EFleet =>
-                     let '(w1, act) := w_event w in
-                     let w2 := upd_edge w1 i (fun x => x <| eact := act |>) in
-                     let '(w', _, _) := spawn w2 (proc0 <| pkd := KFleetAct |> <| pown := i |>) in w'
-                 | _ => w
-                 end) order w0.
+  fold_left mk_step order
+    {| wk := kinit; wedges := edges; wnodes := nodes; wprocs := []; witems := []; wlog := [];
+       wcrash := None; wactive := 0 |}.
